@@ -406,3 +406,50 @@ Fixpoint find_idx (L : layout) (a : N) (i : nat) {struct L} : option nat :=
   | p :: t => match r_to_region_addr (fst p) (snd p) a with Some _ => Some i | None => find_idx t a (S i) end
   end.
 Definition find_lin (L : layout) (a : N) : option nat := find_idx L a 0.
+
+(* ------------------------------------------------------------------------------------------
+   added (w4): the CAPABILITY defaults of GuestMemoryRegion - the provided bodies an implementor
+   inherits when it does not write the method itself - and the implementor flavours of suite C02.
+   (src/guest_memory.rs, trait GuestMemoryRegion) *)
+(* :224 fn get_host_address(&self, _addr: MemoryRegionAddress) -> Result<*mut u8> { Err(Error::HostAddressNotAvailable) } *)
+Definition rd_get_host_address (ln off : N) : res N := inr EHostAddressNotAvailable.
+(* :229 fn file_offset(&self) -> Option<&FileOffset> { None } *)
+Definition rd_file_offset : option N := None.
+(* :235 fn get_slice(&self, offset, count) -> Result<VolatileSlice<..>> { Err(Error::HostAddressNotAvailable) } *)
+Definition rd_get_slice (ln off count : N) : res (N * N) := inr EHostAddressNotAvailable.
+(* :268 fn as_volatile_slice(&self) { self.get_slice(MemoryRegionAddress(0), self.len() as usize) }
+   (dispatches to the implementor's get_slice, own or inherited) *)
+Definition r_as_volatile_slice (get_slice : N -> N -> N -> res (N * N)) (ln : N) : res (N * N) :=
+  get_slice ln 0 ln.
+
+(* An implementor flavour says which of the two capability methods the region type writes itself.
+   own = true: its own method - the code GuestRegionMmap has (mmap/mod.rs:334 / :350) and the harness'
+   mock regions copy (reg_get_host_address / reg_get_slice above); own = false: the provided body. *)
+Definition fl_get_host_address (own : bool) (ln off : N) : res N :=
+  if own then reg_get_host_address ln off else rd_get_host_address ln off.
+Definition fl_get_slice (own : bool) (ln off count : N) : res (N * N) :=
+  if own then reg_get_slice ln off count else rd_get_slice ln off count.
+Definition fl_as_volatile_slice (own : bool) (ln : N) : res (N * N) :=
+  r_as_volatile_slice (fl_get_slice own) ln.
+
+(* GuestMemory::get_host_address (:572) / get_slice (:580) over a region type of a given flavour:
+   the same bodies as gm_get_host_address / gm_get_slice, the region's method being the flavour's *)
+Section DefaultsFlavour.
+Variable find : layout -> N -> option nat.
+Definition gm_get_host_address_fl (own : bool) (L : layout) (a : N) : outcome (res (nat * N)) :=
+  let* o := gm_to_region_addr find L a in
+  Val (match o with
+       | None => inr EInvalidGuestAddress
+       | Some (i, off) =>
+           match fl_get_host_address own (snd (nth i L dreg)) off with
+           | inl p => inl (i, p) | inr e => inr e end
+       end).
+Definition gm_get_slice_fl (own : bool) (L : layout) (a count : N) : outcome (res (nat * N * N)) :=
+  let* o := gm_to_region_addr find L a in
+  Val (match o with
+       | None => inr EInvalidGuestAddress
+       | Some (i, off) =>
+           match fl_get_slice own (snd (nth i L dreg)) off count with
+           | inl (p, c) => inl (i, p, c) | inr e => inr e end
+       end).
+End DefaultsFlavour.
